@@ -38,12 +38,22 @@ pub mod watch {
     use super::*;
     pub struct Receiver<T> { pub t: core::marker::PhantomData<T> }
     pub uninterp spec fn val<T>(r: Receiver<T>) -> T;
+    pub struct RecvError;
     impl<T> Receiver<T> {
         #[verifier::external_body]
         pub fn borrow(&self) -> (r: &T) ensures *r == val(*self) { unimplemented!() }
+        /// resolves when the bootstrap task publishes a new state.  ASSUMED `Ok`: the sender lives in the bootstrap task, whose `run` never returns and
+        /// whose reachable panics are excluded in unit `bootstrap` (C15 (c)); if that task died this would be Err and handler.rs:131 would panic
+        #[verifier::external_body]
+        pub fn changed(&mut self) -> (r: Result<(), RecvError>) ensures r is Ok { unimplemented!() }
     }
 }
 pub struct TableBootstrap { pub state_rx: watch::Receiver<bootstrap::State> }
+impl TableBootstrap {
+    // bootstrap.rs:106-109: tells the bootstrap task to start (a watch send)
+    #[verifier::external_body]
+    pub fn start(&self) { unimplemented!() }
+}
 // tokio::sync::oneshot stand-in (bootstrap waiters): sending consumes the sender and touches nothing else
 pub mod oneshot {
     use super::*;
@@ -241,8 +251,20 @@ impl TableRefresh {
 }
 
 // ================= handler.rs =================
-//@begin type src/handler.rs - struct DhtHandler drop=running,command_rx
+//@begin type src/action/mod.rs - enum OneshotTask
+pub enum OneshotTask {
+    StartBootstrap(),
+    CheckBootstrap(oneshot::Sender<()>),
+    StartLookup(StartLookup),
+    GetLocalAddr(oneshot::Sender<SocketAddr>),
+    GetState(oneshot::Sender<State>),
+    LoadContacts(oneshot::Sender<(HashSet<SocketAddr>, HashSet<SocketAddr>)>),
+}
+//@end
+//@begin type src/handler.rs - struct DhtHandler
 pub struct DhtHandler {
+    pub running: bool,
+    pub command_rx: mpsc::UnboundedReceiver<OneshotTask>,
     pub this_node_id: NodeId,
     pub timer: Timer<ScheduledTaskCheck>,
     pub read_only: bool,
@@ -264,6 +286,112 @@ pub struct DhtHandler {
 
 
 impl DhtHandler {
+
+//@begin fn src/handler.rs impl:DhtHandler run_once rules=R-deasync,R-select props=C14,C15,C16,C18,C11,C04
+    pub fn run_once(&mut self, Tracked(tr): Tracked<&mut Trace>)
+        requires old(self).hinv(),
+        ensures final(self).hinv(), // @C18.single_refresh_chain
+            extends(old(tr).ev, final(tr).ev),
+    {
+        let ghost mut arm: int = -1;
+        let ghost mut fired: Option<Option<ScheduledTaskCheck>> = None;
+        let ghost mut completed = false;
+        let vx_ret = {
+            let vx_sel = vx_select();
+            if vx_sel == 0 && (!self.timer.is_empty()) {
+                let token = self.timer.next();
+                proof { arm = 0; fired = Some(token); }
+                {
+                    // `unwrap` is OK because we checked the timer is non-empty, so it should never
+                    // return `None`.
+                    let token = token.unwrap();
+                    self.handle_timeout(token, Tracked(tr))
+                }
+            } else if vx_sel == 1 && (true) {
+                let command = self.command_rx.recv();
+                {
+                    if let Some(command) = command {
+                        self.handle_command(command, Tracked(tr))
+                    } else {
+                        self.shutdown()
+                    }
+                }
+            } else if vx_sel == 2 && (true) {
+                let result = self.bootstrap.state_rx.changed();
+                proof { arm = 2; completed = self.spec_bootstrapped(); }
+                {
+                    vx_assert(result.is_ok()); // @C15.the_handler_outlives_state_changes_of_the_bootstrap_task
+                    if self.is_bootstrapped() {
+                        self.handle_bootstrap_success(Tracked(tr));
+                    }
+                }
+            } else if vx_sel == 3 && (true) {
+                let message = self.socket.recv();
+                {
+                    match message {
+                        Ok((message, addr)) => if let Err(error) = self.handle_incoming(message, addr, Tracked(tr)) {
+                        }
+                        Err(error) => (),
+                    }
+                }
+            } else {
+                vx_select_idle((!self.timer.is_empty()) || (true) || (true) || (true)); // @C14.select_always_has_an_enabled_arm
+            }
+        };
+        proof {
+            // every transition to Bootstrapped starts the queued searches and one refresh round
+            assert(arm == 2 && completed ==> self.initial_bootstrap_done && self.pending_lookups@.len() == 0 && self.one_refresh_pending()); // @C16.bootstrap_completion_releases_the_queued_searches @C18.one_round_per_bootstrap_completion @C11.refresh_starts_at_bootstrap_completion
+            // a fired refresh timeout runs a round and schedules the next one
+            assert(arm == 0 && fired == Some(Some(ScheduledTaskCheck::TableRefresh)) ==> self.one_refresh_pending()); // @C11.every_refresh_timeout_runs_a_round_and_schedules_the_next @C18.next_round_scheduled_6s_ahead
+        }
+        vx_ret
+    }
+//@end
+
+//@begin fn src/handler.rs impl:DhtHandler handle_command rules=R-deasync props=C14,C15,C16,C04
+    pub fn handle_command(&mut self, task: OneshotTask, Tracked(tr): Tracked<&mut Trace>)
+        requires old(self).hinv(),
+        ensures final(self).hinv(), extends(old(tr).ev, final(tr).ev),
+    {
+        match task {
+            OneshotTask::StartBootstrap() => {
+                self.handle_start_bootstrap();
+            }
+            OneshotTask::CheckBootstrap(tx) => {
+                self.handle_check_bootstrap(tx);
+            }
+            OneshotTask::StartLookup(lookup) => {
+                self.handle_start_lookup(lookup, Tracked(tr));
+            }
+            OneshotTask::GetLocalAddr(tx) => self.handle_get_local_addr(tx),
+            OneshotTask::GetState(tx) => self.handle_get_state(tx),
+            OneshotTask::LoadContacts(tx) => self.handle_load_contacts(tx),
+        }
+    }
+//@end
+
+//@begin fn src/handler.rs impl:DhtHandler shutdown nopub=1 props=C14
+    fn shutdown(&mut self)
+        ensures final(self).hinv() == old(self).hinv(), !final(self).running,
+    {
+        self.running = false;
+    }
+//@end
+
+//@begin fn src/handler.rs impl:DhtHandler handle_start_bootstrap nopub=1 props=C15
+    fn handle_start_bootstrap(&mut self)
+        ensures *final(self) == *old(self),
+    {
+        self.bootstrap.start();
+    }
+//@end
+    // ASSUMED (handler.rs:467-482, 569-575: read-only API answers over oneshot channels; they take &self and have no access to the effect trace)
+    #[verifier::external_body]
+    fn handle_get_local_addr(&self, tx: oneshot::Sender<SocketAddr>) { unimplemented!() }
+    #[verifier::external_body]
+    fn handle_get_state(&self, tx: oneshot::Sender<State>) { unimplemented!() }
+    #[verifier::external_body]
+    fn handle_load_contacts(&self, tx: oneshot::Sender<(HashSet<SocketAddr>, HashSet<SocketAddr>)>) { unimplemented!() }
 
 //@begin fn src/handler.rs impl:DhtHandler ip_version nopub=1
     fn ip_version(&self) -> (r: IpVersion)
@@ -852,6 +980,7 @@ impl DhtHandler {
 //@begin fn src/handler.rs impl:DhtHandler handle_check_bootstrap props=C15
     pub fn handle_check_bootstrap(&mut self, tx: oneshot::Sender<()>)
         ensures
+            old(self).hinv() ==> final(self).hinv(),
             // a caller asking after completion is told at once and nothing is stored
             old(self).spec_bootstrapped() ==> final(self).bootstrap_txs@ == old(self).bootstrap_txs@ && final(self).next_bootstrap_txs_id == old(self).next_bootstrap_txs_id, // @C15.asked_after_completion_told_at_once
             // a caller asking earlier is added to the waiters under a key no waiting caller holds: nobody waiting is dropped or replaced
